@@ -53,6 +53,10 @@ type Plan struct {
 	// and Temporary() report true (an expired read deadline keeps failing that
 	// way: "temporary" does not mean the next Read succeeds).
 	Timeout bool
+	// Unexpected makes the injected error io.ErrUnexpectedEOF (an EOF-like
+	// error that is not io.EOF: a consumer that treats it as the normal end
+	// must not go on reading).
+	Unexpected bool
 }
 
 func (p Plan) String() string {
@@ -65,6 +69,9 @@ func (p Plan) String() string {
 	if p.Timeout {
 		return fmt.Sprintf("%s@%d (timeout error)", p.Kind, p.K)
 	}
+	if p.Unexpected {
+		return fmt.Sprintf("%s@%d (io.ErrUnexpectedEOF)", p.Kind, p.K)
+	}
 	return fmt.Sprintf("%s@%d", p.Kind, p.K)
 }
 
@@ -75,6 +82,9 @@ type ReadBudgetExceeded struct{ Calls int }
 func (r *Reader) err() error {
 	if r.Plan.Timeout {
 		return TimeoutError{}
+	}
+	if r.Plan.Unexpected {
+		return io.ErrUnexpectedEOF
 	}
 	return ErrInjected
 }
